@@ -92,3 +92,63 @@ func HarnessC13Split() {
 	vAssert(err != nil, "faulty-construct-is-reported")
 	vAssert(err.Line() == want, "reported-line-is-the-line-of-the-offending-token")
 }
+
+// HarnessC13Files: faults found while loading a template tree, and faults in the page itself, are reported with the
+// absolute path of the file that contains the construct and the line on which it ends; a multi-line token with
+// symbolic line breaks precedes the construct.
+func HarnessC13Files() {
+	vfsReset()
+	lead := c13Token(vChoice("kind", 5), "t") + string([]byte{symBreak("gap")})
+	line := 1 + countNewlines(lead)
+	cwd := vfsCwd()
+	layout := "L[@reserve(\"r\")]"
+	comp := "<c>{{ t }}</c>"
+	page := "@use(\"~main\")@insert(\"r\")P@component(\"~card\", {t: 1})@end"
+	var wantPath string
+	runtime := false
+	switch vChoice("fault", 6) {
+	case 0: // undefined insert in the page
+		page = "@use(\"~main\")" + lead + "@insert(\"zz\", 1)"
+		wantPath = cwd + "/templates/page.tw"
+	case 1: // unknown component in the page
+		page = lead + "@component(\"~nope\")"
+		wantPath = cwd + "/templates/page.tw"
+	case 2: // syntax fault in the layout file
+		layout = lead + "{{ 1 2 }}[@reserve(\"r\")]"
+		wantPath = cwd + "/templates/layouts/main.tw"
+	case 3: // illegal character in the component file
+		comp = lead + "{{ # }}"
+		wantPath = cwd + "/templates/components/card.tw"
+	case 4: // run-time fault in the page itself
+		page = lead + "{{ undefinedName }}"
+		wantPath = cwd + "/templates/page.tw"
+		runtime = true
+	default: // syntax fault in the page
+		page = lead + "@if(true"
+		wantPath = cwd + "/templates/page.tw"
+	}
+	vfsWriteFile("templates/layouts/main.tw", layout)
+	vfsWriteFile("templates/components/card.tw", comp)
+	vfsWriteFile("templates/page.tw", page)
+	tpl, err := newTemplate("templates", ".tw")
+	vCover("loaded")
+	if runtime {
+		vAssert(err == nil && tpl != nil, "tree-with-a-run-time-fault-loads")
+		_, ferr := tpl.String("page", nil)
+		vAssert(ferr != nil, "run-time-fault-is-reported")
+		vAssert(ferr.Line() == line, "reported-line-is-the-line-of-the-construct")
+		vAssert(ferr.Filepath() == wantPath, "reported-path-is-the-absolute-path-of-the-page")
+		return
+	}
+	vAssert(err != nil && tpl == nil, "load-time-fault-is-reported")
+	msg := err.Error()
+	// the error text is "[Textwire ERROR in <path>:<line>]:\n<message>"
+	vAssert(hasSub(msg, " in "+wantPath+":"+itoaSmall(line)+"]"), "error-names-the-file-and-line-of-the-construct")
+}
+
+func itoaSmall(n uint) string {
+	if n < 10 {
+		return string([]byte{byte('0' + n)})
+	}
+	return string([]byte{byte('0' + n/10), byte('0' + n%10)})
+}
